@@ -130,7 +130,8 @@ def run_cases(ck, res, n_cases, n_interval):
             row = pts[0]
             venv = {f'x{j}': row[j] for j in range(m)}
             venv.update({f'o{j}': row[m + j] for j in range(k)})
-            goals.append(enga.interval_goal(tname, res[tname]['terms'][0], venv, {}, {f'P{i}': Ps[i] for i in range(k)}, float(out[0, 0]), 10.0))
+            goals.append(enga.interval_goal(tname, res[tname]['terms'][0], venv, {}, {f'P{i}': Ps[i] for i in range(k)}, float(out[0, 0]), 10.0,
+                                            gen=('Gen_C12', tname, 'term_0'), names=res[tname]['names']))
     # ---- (3) NoCondition and output-unit selection
     for kk in range(1, 5):
         for m in range(1, 5):
